@@ -286,6 +286,8 @@ def run(ck, only=None):
         special_cases(ck)
     if not only or only.get("part") == "anon":
         anon_cases(ck, only)
+    if not only or only.get("part") == "ctor":
+        constructor_cases(ck, only)
     if not only or only.get("part") == "files":
         fgs = graphs(ck.tier)
         if ck.tier == "quick":
@@ -400,7 +402,16 @@ def file_cases(ck, gs, only=None):
             os.makedirs(d, exist_ok=True)
             parts = {"part_a.h": ordered[:k], "part_b.h": ordered[k:]}
             for fn, ns in parts.items():
-                open(os.path.join(d, fn), "w").write("\n".join(n.source(kinds) for n in ns) + "\n")
+                text = "\n".join(n.source(kinds) for n in ns) + "\n"
+                if fn == "part_b.h" and (gi + k) % 2 == 0:
+                    # file-system condition: the included name is a symbolic link to a differently named file elsewhere; the
+                    # pattern is matched against the name the header was included by
+                    os.makedirs(os.path.join(d, "detail"), exist_ok=True)
+                    open(os.path.join(d, "detail", "impl_v2.h"), "w").write(text)
+                    if not os.path.lexists(os.path.join(d, fn)):
+                        os.symlink("detail/impl_v2.h", os.path.join(d, fn))
+                else:
+                    open(os.path.join(d, fn), "w").write(text)
             hp = os.path.join(d, "main.h")
             open(hp, "w").write("\n".join(fwd + ['#include "part_a.h"', '#include "part_b.h"'] + TRAILER) + "\n")
             base = [hp, "--formatter", "none", "--no-layout-tests"]
@@ -446,6 +457,77 @@ def file_cases(ck, gs, only=None):
     cmeta = {jid: (meta[jid][0] + " allowlist-file", [], [jid.split("|")[2]], meta[jid][3], set()) for jid, _ in comp}
     compile_groups(ck, comp, cmeta, wd)
     ck.extra["allowlist_file_runs"] = len(meta)
+
+
+CONSTRUCTORS = [
+    ("vector", "typedef {e} {t}_w __attribute__((vector_size(16)));"),
+    ("ext-vector", "typedef {e} {t}_w __attribute__((ext_vector_type(4)));"),
+    ("complex-of-typedef", "typedef struct {{ {e} re; {e} im; }} {t}_w;"),
+    ("array", "typedef {e} {t}_w[3];"),
+    ("array2d", "typedef {e} {t}_w[2][2];"),
+    ("pointer", "typedef {e} *{t}_w;"),
+    ("pointer-to-array", "typedef {e} (*{t}_w)[4];"),
+    ("const-volatile", "typedef const volatile {e} {t}_w;"),
+    ("function-type", "typedef {e} {t}_w({e}, int);"),
+    ("function-pointer", "typedef {e} (*{t}_w)({e} *);"),
+    ("function-returning-fnptr", "typedef {e} (*(*{t}_w)(int))({e});"),
+    ("atomic", "typedef _Atomic {e} {t}_w;"),
+    ("bitfield-base", "typedef struct {{ {e2} bits:3; int rest; }} {t}_w;"),
+    ("incomplete-array-member", "typedef struct {{ int n; {e} tail[]; }} {t}_w;"),
+    ("union-member", "typedef union {{ {e} a; char b[8]; }} {t}_w;"),
+    ("enum-typed-field", "typedef struct {{ {e3} tag; }} {t}_w;"),
+]
+
+
+def constructor_cases(ck, only=None):
+    """A typedef that is reachable from the allowlisted root ONLY through one rarely used type constructor must still be emitted
+    (and the output must compile): one header per constructor x four kinds of root."""
+    wd = os.path.join(ck.wd, "ctor")
+    os.makedirs(wd, exist_ok=True)
+    roots = {"struct-member": ("struct {t}_root {{ {t}_w m; int k; }};", "--allowlist-type", "{t}_root"),
+             "function-param": ("void {t}_root({t}_w *p);", "--allowlist-function", "{t}_root"),
+             "variable": ("extern {t}_w *{t}_root;", "--allowlist-var", "{t}_root"),
+             "typedef": ("typedef {t}_w {t}_root;", "--allowlist-type", "{t}_root")}
+    jobs, meta = [], {}
+    for ci, (cname, ctext) in enumerate(CONSTRUCTORS):
+        for rname, (rtext, flag, pat) in roots.items():
+            t = f"Q{ci}"
+            jid = f"{cname}|{rname}"
+            if only and only.get("job") != jid:
+                continue
+            if cname == "function-type" and rname in ("struct-member",):
+                continue  # a function type cannot be a member
+            src = (f"typedef float {t}_elem;\ntypedef unsigned {t}_uelem;\nenum {t}_tag {{ {t}_T0, {t}_T1 }};\ntypedef enum {t}_tag {t}_tag_t;\n"
+                   + ctext.format(t=t, e=f"{t}_elem", e2=f"{t}_uelem", e3=f"{t}_tag_t") + "\n" + rtext.format(t=t) + "\nstruct unrelated_z { int z; };\n")
+            hp = os.path.join(wd, f"c{ci}_{rname}.h")
+            open(hp, "w").write(src)
+            jobs.append({"id": jid, "args": [hp, "--formatter", "none", "--no-layout-tests", flag, pat.format(t=t)], "inventory": True})
+            need = {"function-type": f"{t}_elem", "bitfield-base": f"{t}_uelem", "enum-typed-field": f"{t}_tag_t"}.get(cname, f"{t}_elem")
+            meta[jid] = (need, f"{t}_w", src)
+    res = common.run_jobs(jobs, wd)
+    comp = []
+    for jid, (need, w, src) in meta.items():
+        ck.count()
+        ck.nontriv(("ctor", jid))
+        r = res[jid]
+        case = f"constructor {jid}"
+        det = {"part": "ctor", "job": jid}
+        if r["status"] != "ok":
+            ck.violation(case + " generation-failed", dict(det, why=str(r)[:200]))
+            continue
+        names = set(emitted_all(r["inventory"]))
+        probs = []
+        if w in names and need not in names:
+            probs.append(f"{w} is emitted but the typedef it is built from ({need}) is not")
+        if "unrelated_z" in names:
+            probs.append("an unrelated struct is emitted")
+        if probs:
+            ck.violation(case, dict(det, why="; ".join(probs) + f"; header: {src[:160]}"))
+        else:
+            comp.append((jid, r["text"]))
+    cmeta = {jid: (f"constructor {jid}", [], [jid], "ctor", set()) for jid, _ in comp}
+    compile_groups(ck, comp, cmeta, wd)
+    ck.extra["constructor_runs"] = len(meta)
 
 
 ANON_H = r'''
@@ -527,6 +609,10 @@ def emitted_all(inv, prefix=""):
             out.update(emitted_all(it, prefix + n + "::"))
         elif k == "impl":
             out[prefix + f"impl {it.get('trait')} for {it.get('self_ty')}"] = it["tokens"]
+        elif k == "use":
+            m = re.search(r"as\s+(\w+)\s*;", it["tokens"])   # `pub use self::E as E_t;` (typedef of an enum)
+            if m:
+                out[prefix + m.group(1)] = it["tokens"]
         elif n and n != "_":
             out[prefix + n] = it["tokens"]
     return out
